@@ -9,11 +9,11 @@ import orch
 THRASH = "option tuple without guaranteed progress (restarts on while learned nogoods are deleted above a tiny limit, or nothing is learned): the solve does not terminate within the poll budget"
 SPEC = [
   # property, id, classes, symptom, what
-  ("C02", "C02-thrash-no-termination", ["opt.thrash"], r"^budget-exhausted", THRASH),
-  ("C03", "C03-thrash-no-termination", ["opt.thrash"], r"^budget-exhausted", THRASH),
-  ("C07", "C07-thrash-no-termination", ["opt.thrash"], r"^budget-exhausted", THRASH),
-  ("C09", "C09-thrash-no-termination", ["opt.thrash"], r"^budget-exhausted", THRASH),
-  ("C18", "C18-thrash-no-termination", ["opt.thrash"], r"^budget-exhausted", THRASH),
+  ("C02", "C02-thrash-no-termination", ["opt.thrash"], r"^(budget-exhausted|hang)", THRASH),
+  ("C03", "C03-thrash-no-termination", ["opt.thrash"], r"^(budget-exhausted|hang)", THRASH),
+  ("C07", "C07-thrash-no-termination", ["opt.thrash"], r"^(budget-exhausted|hang)", THRASH),
+  ("C09", "C09-thrash-no-termination", ["opt.thrash"], r"^(budget-exhausted|hang)", THRASH),
+  ("C18", "C18-thrash-no-termination", ["opt.thrash"], r"^(budget-exhausted|hang)", THRASH),
   ("C01", "C01-implied-cumulative", ["implied.cumulative"], r"^solution-violates-model.*cumulative", "half-reified cumulative (incremental time-table variants): an assignment with the literal true that overloads the resource is reported"),
   ("C02", "C02-implied-cumulative", ["implied.cumulative"], r"^solution-violates-model.*cumulative", "half-reified cumulative (incremental time-table variants): an assignment with the literal true that overloads the resource is reported"),
   ("C03", "C03-implied-cumulative", ["implied.cumulative"], r"^non-solution-yielded.*cumulative", "half-reified cumulative (incremental time-table variants): an assignment with the literal true that overloads the resource is reported"),
@@ -32,34 +32,39 @@ SPEC = [
   ("C06", "C06-scaffold-sat-unsat-cuts-missing", ["proof.scaffold", "proof.sat-unsat"], r"^nogood-not-implied", "scaffold proof of a linear SAT-UNSAT optimisation does not contain the objective cuts its nogoods depend on"),
   ("C16", "C16-extreme-magnitudes", ["mag.regime.extreme"], r".", "constants at the 32-bit limits themselves (|value| >= 2^30 combined with offsets / right-hand sides of the same magnitude): wrapped intermediate results in views, linear-not-equal, maximum/minimum, absolute, division"),
   ("C16", "C16-repeated-variable-minimiser-panic", ["linear.repeated_var"], r"recursive_minimiser", "linear (dis)equality in which a variable occurs twice: the recursive minimiser panics on a reason predicate that is not assigned"),
-  ("C01", "C01-minimiser-unassigned-predicate", [], r"called `Option::unwrap\(\)` on a `None` value @ .*recursive_minimiser", 'conflict analysis on clauses over equality / disequality predicates or on constraints with a repeated variable meets a reason predicate that is not assigned: the recursive minimiser panics', ["kind.predicate_clause", "repeated_var"]),
-  ("C01", "C01-predicate-clause-trail-entry", ["kind.predicate_clause"], r"Expected to be able to get trail entry of", 'clause over equality / disequality predicates: conflict analysis asks for the trail entry of a predicate that is not on the trail'),
-  ("C02", "C02-minimiser-unassigned-predicate", [], r"called `Option::unwrap\(\)` on a `None` value @ .*recursive_minimiser", 'conflict analysis on clauses over equality / disequality predicates or on constraints with a repeated variable meets a reason predicate that is not assigned: the recursive minimiser panics', ["kind.predicate_clause", "repeated_var"]),
-  ("C02", "C02-predicate-clause-trail-entry", ["kind.predicate_clause"], r"Expected to be able to get trail entry of", 'clause over equality / disequality predicates: conflict analysis asks for the trail entry of a predicate that is not on the trail'),
-  ("C03", "C03-minimiser-unassigned-predicate", [], r"called `Option::unwrap\(\)` on a `None` value @ .*recursive_minimiser", 'conflict analysis on clauses over equality / disequality predicates or on constraints with a repeated variable meets a reason predicate that is not assigned: the recursive minimiser panics', ["kind.predicate_clause", "repeated_var"]),
-  ("C03", "C03-predicate-clause-trail-entry", ["kind.predicate_clause"], r"Expected to be able to get trail entry of", 'clause over equality / disequality predicates: conflict analysis asks for the trail entry of a predicate that is not on the trail'),
-  ("C04", "C04-minimiser-unassigned-predicate", [], r"called `Option::unwrap\(\)` on a `None` value @ .*recursive_minimiser", 'conflict analysis on clauses over equality / disequality predicates or on constraints with a repeated variable meets a reason predicate that is not assigned: the recursive minimiser panics', ["kind.predicate_clause", "repeated_var"]),
-  ("C04", "C04-predicate-clause-trail-entry", ["kind.predicate_clause"], r"Expected to be able to get trail entry of", 'clause over equality / disequality predicates: conflict analysis asks for the trail entry of a predicate that is not on the trail'),
-  ("C05", "C05-minimiser-unassigned-predicate", [], r"called `Option::unwrap\(\)` on a `None` value @ .*recursive_minimiser", 'conflict analysis on clauses over equality / disequality predicates or on constraints with a repeated variable meets a reason predicate that is not assigned: the recursive minimiser panics', ["kind.predicate_clause", "repeated_var"]),
-  ("C05", "C05-predicate-clause-trail-entry", ["kind.predicate_clause"], r"Expected to be able to get trail entry of", 'clause over equality / disequality predicates: conflict analysis asks for the trail entry of a predicate that is not on the trail'),
-  ("C07", "C07-minimiser-unassigned-predicate", [], r"called `Option::unwrap\(\)` on a `None` value @ .*recursive_minimiser", 'conflict analysis on clauses over equality / disequality predicates or on constraints with a repeated variable meets a reason predicate that is not assigned: the recursive minimiser panics', ["kind.predicate_clause", "repeated_var"]),
-  ("C07", "C07-predicate-clause-trail-entry", ["kind.predicate_clause"], r"Expected to be able to get trail entry of", 'clause over equality / disequality predicates: conflict analysis asks for the trail entry of a predicate that is not on the trail'),
-  ("C09", "C09-minimiser-unassigned-predicate", [], r"called `Option::unwrap\(\)` on a `None` value @ .*recursive_minimiser", 'conflict analysis on clauses over equality / disequality predicates or on constraints with a repeated variable meets a reason predicate that is not assigned: the recursive minimiser panics', ["kind.predicate_clause", "repeated_var"]),
-  ("C09", "C09-predicate-clause-trail-entry", ["kind.predicate_clause"], r"Expected to be able to get trail entry of", 'clause over equality / disequality predicates: conflict analysis asks for the trail entry of a predicate that is not on the trail'),
-  ("C10", "C10-minimiser-unassigned-predicate", [], r"called `Option::unwrap\(\)` on a `None` value @ .*recursive_minimiser", 'conflict analysis on clauses over equality / disequality predicates or on constraints with a repeated variable meets a reason predicate that is not assigned: the recursive minimiser panics', ["kind.predicate_clause", "repeated_var"]),
-  ("C10", "C10-predicate-clause-trail-entry", ["kind.predicate_clause"], r"Expected to be able to get trail entry of", 'clause over equality / disequality predicates: conflict analysis asks for the trail entry of a predicate that is not on the trail'),
-  ("C11", "C11-minimiser-unassigned-predicate", [], r"called `Option::unwrap\(\)` on a `None` value @ .*recursive_minimiser", 'conflict analysis on clauses over equality / disequality predicates or on constraints with a repeated variable meets a reason predicate that is not assigned: the recursive minimiser panics', ["kind.predicate_clause", "repeated_var"]),
-  ("C11", "C11-predicate-clause-trail-entry", ["kind.predicate_clause"], r"Expected to be able to get trail entry of", 'clause over equality / disequality predicates: conflict analysis asks for the trail entry of a predicate that is not on the trail'),
-  ("C18", "C18-minimiser-unassigned-predicate", [], r"called `Option::unwrap\(\)` on a `None` value @ .*recursive_minimiser", 'conflict analysis on clauses over equality / disequality predicates or on constraints with a repeated variable meets a reason predicate that is not assigned: the recursive minimiser panics', ["kind.predicate_clause", "repeated_var"]),
-  ("C18", "C18-predicate-clause-trail-entry", ["kind.predicate_clause"], r"Expected to be able to get trail entry of", 'clause over equality / disequality predicates: conflict analysis asks for the trail entry of a predicate that is not on the trail'),
-  ("C20", "C20-minimiser-unassigned-predicate", [], r"called `Option::unwrap\(\)` on a `None` value @ .*recursive_minimiser", 'conflict analysis on clauses over equality / disequality predicates or on constraints with a repeated variable meets a reason predicate that is not assigned: the recursive minimiser panics', ["kind.predicate_clause", "repeated_var"]),
-  ("C20", "C20-predicate-clause-trail-entry", ["kind.predicate_clause"], r"Expected to be able to get trail entry of", 'clause over equality / disequality predicates: conflict analysis asks for the trail entry of a predicate that is not on the trail'),
-  ("C05", "C05-core-panic-repeated-variable", ["repeated_var"], r"^core-panic.*resolution_resolver", "constraint with a repeated variable: extract_core panics in the resolver"),
-  ("C10", "C10-core-panic-repeated-variable", ["repeated_var", "history.assumptions"], r"extract_core.*resolution_resolver", "constraint with a repeated variable: extract_core panics in the resolver"),
-  ("C17", "C17-nogood-reason-not-true", ["kind.predicate_clause"], r"^analysis-reason-not-true.*NogoodPropagator", "clause over equality predicates: the nogood propagator propagates although one of the other predicates of the nogood is not true, so its reason does not hold"),
-  ("C06", "C06-reified-literal-trivial-predicate", ["kind.literal_definition"], r"is not a valid reification predicate", "literal created with new_literal_for_predicate: proof logging panics on a trivially true bound of the literal (e.g. [b <= 1]) in a reason"),
+  ("C01", "C01-minimiser-unassigned-predicate", [], r"called `Option::unwrap\(\)` on a `None` value @ .*recursive_minimiser", 'conflict analysis meets a reason predicate that is not assigned (mostly with clauses over equality / disequality predicates or constraints with a repeated variable; consequence of the nogood propagator propagating on an equality predicate that is not true): the recursive minimiser panics'),
+  ("C01", "C01-predicate-clause-trail-entry", [], r"Expected to be able to get trail entry of", 'clause over equality / disequality predicates: conflict analysis asks for the trail entry of a predicate that is not on the trail'),
+  ("C02", "C02-minimiser-unassigned-predicate", [], r"called `Option::unwrap\(\)` on a `None` value @ .*recursive_minimiser", 'conflict analysis meets a reason predicate that is not assigned (mostly with clauses over equality / disequality predicates or constraints with a repeated variable; consequence of the nogood propagator propagating on an equality predicate that is not true): the recursive minimiser panics'),
+  ("C02", "C02-predicate-clause-trail-entry", [], r"Expected to be able to get trail entry of", 'clause over equality / disequality predicates: conflict analysis asks for the trail entry of a predicate that is not on the trail'),
+  ("C03", "C03-minimiser-unassigned-predicate", [], r"called `Option::unwrap\(\)` on a `None` value @ .*recursive_minimiser", 'conflict analysis meets a reason predicate that is not assigned (mostly with clauses over equality / disequality predicates or constraints with a repeated variable; consequence of the nogood propagator propagating on an equality predicate that is not true): the recursive minimiser panics'),
+  ("C03", "C03-predicate-clause-trail-entry", [], r"Expected to be able to get trail entry of", 'clause over equality / disequality predicates: conflict analysis asks for the trail entry of a predicate that is not on the trail'),
+  ("C04", "C04-minimiser-unassigned-predicate", [], r"called `Option::unwrap\(\)` on a `None` value @ .*recursive_minimiser", 'conflict analysis meets a reason predicate that is not assigned (mostly with clauses over equality / disequality predicates or constraints with a repeated variable; consequence of the nogood propagator propagating on an equality predicate that is not true): the recursive minimiser panics'),
+  ("C04", "C04-predicate-clause-trail-entry", [], r"Expected to be able to get trail entry of", 'clause over equality / disequality predicates: conflict analysis asks for the trail entry of a predicate that is not on the trail'),
+  ("C05", "C05-minimiser-unassigned-predicate", [], r"called `Option::unwrap\(\)` on a `None` value @ .*recursive_minimiser", 'conflict analysis meets a reason predicate that is not assigned (mostly with clauses over equality / disequality predicates or constraints with a repeated variable; consequence of the nogood propagator propagating on an equality predicate that is not true): the recursive minimiser panics'),
+  ("C05", "C05-predicate-clause-trail-entry", [], r"Expected to be able to get trail entry of", 'clause over equality / disequality predicates: conflict analysis asks for the trail entry of a predicate that is not on the trail'),
+  ("C07", "C07-minimiser-unassigned-predicate", [], r"called `Option::unwrap\(\)` on a `None` value @ .*recursive_minimiser", 'conflict analysis meets a reason predicate that is not assigned (mostly with clauses over equality / disequality predicates or constraints with a repeated variable; consequence of the nogood propagator propagating on an equality predicate that is not true): the recursive minimiser panics'),
+  ("C07", "C07-predicate-clause-trail-entry", [], r"Expected to be able to get trail entry of", 'clause over equality / disequality predicates: conflict analysis asks for the trail entry of a predicate that is not on the trail'),
+  ("C09", "C09-minimiser-unassigned-predicate", [], r"called `Option::unwrap\(\)` on a `None` value @ .*recursive_minimiser", 'conflict analysis meets a reason predicate that is not assigned (mostly with clauses over equality / disequality predicates or constraints with a repeated variable; consequence of the nogood propagator propagating on an equality predicate that is not true): the recursive minimiser panics'),
+  ("C09", "C09-predicate-clause-trail-entry", [], r"Expected to be able to get trail entry of", 'clause over equality / disequality predicates: conflict analysis asks for the trail entry of a predicate that is not on the trail'),
+  ("C10", "C10-minimiser-unassigned-predicate", [], r"called `Option::unwrap\(\)` on a `None` value @ .*recursive_minimiser", 'conflict analysis meets a reason predicate that is not assigned (mostly with clauses over equality / disequality predicates or constraints with a repeated variable; consequence of the nogood propagator propagating on an equality predicate that is not true): the recursive minimiser panics'),
+  ("C10", "C10-predicate-clause-trail-entry", [], r"Expected to be able to get trail entry of", 'clause over equality / disequality predicates: conflict analysis asks for the trail entry of a predicate that is not on the trail'),
+  ("C11", "C11-minimiser-unassigned-predicate", [], r"called `Option::unwrap\(\)` on a `None` value @ .*recursive_minimiser", 'conflict analysis meets a reason predicate that is not assigned (mostly with clauses over equality / disequality predicates or constraints with a repeated variable; consequence of the nogood propagator propagating on an equality predicate that is not true): the recursive minimiser panics'),
+  ("C11", "C11-predicate-clause-trail-entry", [], r"Expected to be able to get trail entry of", 'clause over equality / disequality predicates: conflict analysis asks for the trail entry of a predicate that is not on the trail'),
+  ("C18", "C18-minimiser-unassigned-predicate", [], r"called `Option::unwrap\(\)` on a `None` value @ .*recursive_minimiser", 'conflict analysis meets a reason predicate that is not assigned (mostly with clauses over equality / disequality predicates or constraints with a repeated variable; consequence of the nogood propagator propagating on an equality predicate that is not true): the recursive minimiser panics'),
+  ("C18", "C18-predicate-clause-trail-entry", [], r"Expected to be able to get trail entry of", 'clause over equality / disequality predicates: conflict analysis asks for the trail entry of a predicate that is not on the trail'),
+  ("C20", "C20-minimiser-unassigned-predicate", [], r"called `Option::unwrap\(\)` on a `None` value @ .*recursive_minimiser", 'conflict analysis meets a reason predicate that is not assigned (mostly with clauses over equality / disequality predicates or constraints with a repeated variable; consequence of the nogood propagator propagating on an equality predicate that is not true): the recursive minimiser panics'),
+  ("C20", "C20-predicate-clause-trail-entry", [], r"Expected to be able to get trail entry of", 'clause over equality / disequality predicates: conflict analysis asks for the trail entry of a predicate that is not on the trail'),
+  ("C05", "C05-core-panic-resolver", [], r"^core-panic.*resolution_resolver", "extract_core panics in the resolver (unwrap on None in the all-decision resolution)"),
+  ("C10", "C10-core-panic-resolver", ["history.assumptions"], r"extract_core.*resolution_resolver", "extract_core panics in the resolver (unwrap on None in the all-decision resolution)"),
+  ("C17", "C17-nogood-reason-not-true", [], r"^analysis-reason-not-true.*NogoodPropagator", "nogood containing an equality predicate: the nogood propagator propagates although that predicate is not true, so its reason does not hold (mostly with clauses over equality predicates or repeated variables)"),
+  ("C06", "C06-reified-literal-trivial-predicate", ["kind.literal_definition"], r"(is not a valid reification predicate|assertion failed: rhs == 0 \|\| rhs == 1)", "literal created with new_literal_for_predicate: proof logging panics on a trivially true bound of the literal (e.g. [b <= 1]) in a reason"),
   ("C06", "C06-predicate-clause-root-premise", ["kind.predicate_clause"], r"assertion failed: self.assignments.is_predicate_satisfied\(premise\)", "clause over equality predicates: logging a root propagation asserts on a reason predicate that is not true"),
-  ("C06", "C06-finalizer-empty-reason", ["repeated_var"], r"assertion failed: !reason.is_empty\(\)", "proof finalisation asserts on an empty reason (constraint with a repeated variable)"),
+  ("C06", "C06-finalizer-empty-reason", [], r"assertion failed: !reason.is_empty\(\)", "proof finalisation asserts on an empty reason"),
+  ("C13", "C13-element-repeated-variable", ["fzn.element_repeated_var"], r"^(solution-set-mismatch|printed-non-solution|no-verdict|unsat-but-satisfiable)", "element constraint in which a variable occurs more than once: solutions are lost / conflict analysis panics"),
+  ("C06", "C06-minimiser-unassigned-predicate", [], r"called `Option::unwrap\(\)` on a `None` value @ .*recursive_minimiser", 'conflict analysis meets a reason predicate that is not assigned (mostly with clauses over equality / disequality predicates or constraints with a repeated variable; consequence of the nogood propagator propagating on an equality predicate that is not true): the recursive minimiser panics'),
+  ("C06", "C06-predicate-clause-trail-entry", [], r"Expected to be able to get trail entry of", 'clause over equality / disequality predicates: conflict analysis asks for the trail entry of a predicate that is not on the trail'),
+  ("C08", "C08-minimiser-unassigned-predicate", [], r"called `Option::unwrap\(\)` on a `None` value @ .*recursive_minimiser", 'conflict analysis meets a reason predicate that is not assigned (mostly with clauses over equality / disequality predicates or constraints with a repeated variable; consequence of the nogood propagator propagating on an equality predicate that is not true): the recursive minimiser panics'),
+  ("C08", "C08-predicate-clause-trail-entry", [], r"Expected to be able to get trail entry of", 'clause over equality / disequality predicates: conflict analysis asks for the trail entry of a predicate that is not on the trail'),
   ("C15", "C15-cardinality-network-duplicate-soft", ["enc.cardinality-network", "wcnf.duplicate_soft"], r"Sorting network encoding is only supported on unweighted", "duplicate unit soft clauses of a uniform-weight instance are merged into one weighted literal and the cardinality-network encoding panics"),
 ]
 
